@@ -102,7 +102,8 @@ def run(facts, R):
         fs = facts_at(cv, sym, facts, bb)
         txt = render(val)
         if val[0] == "bin" and val[1] == "Eq" and {val[2][0], val[3][0]} == {"arg", "const"} and 0 in (const_val(val[2]), const_val(val[3])):
-            ok = any(f["val"] is True and is_call(f["expr"], "is_empty") and _is_f(f["expr"][2][0], "chunks") for f in fs)
+            ok = any(f["val"] is True and is_call(f["expr"], "is_empty") and _is_f(f["expr"][2][0], "chunks") for f in fs) or \
+                any(f["val"] == "None" and is_call(f["expr"], "back", "front") and _is_f(f["expr"][2][0], "chunks") for f in fs)     # no newest chunk == empty
             R.check(ok, "covers-table", cv.path, "row:empty-ring",
                     "`offset == 0` is returned outside the chunks.is_empty() branch; guards: %s" % texts(fs), span, "empty ring -> offset == 0")
             seen_rows.add("empty")
@@ -133,11 +134,39 @@ def run(facts, R):
             R.check(ok, "covers-table", cv.path, "row:trailing-edge",
                     "final row is %s, expected highest_end_offset() == Some(offset)" % txt, span, txt)
             seen_rows.add("edge")
+        elif val[0] == "bin" and val[1] == "Eq" and _edge_sum(val[2], val[3]):
+            # the trailing edge spelled out: newest.offset + newest.data_len == offset, newest = chunks.back()
+            seen_rows.add("edge")
+            R.ok("covers-table", cv.path, "row:trailing-edge", span, txt)
         else:
             R.bad("covers-table", cv.path, "row:unrecognised", "covers has an unrecognised result row `%s` under %s" % (txt, texts(fs)), span)
     for need in ("empty", "boundary", "edge"):
         R.check(need in seen_rows, "covers-table", cv.path, "row-present:" + need, "covers lost its `%s` row" % need)
-    he = facts.body(RING + "::highest_end_offset")
+    if RING + "::highest_end_offset" not in facts.bodies:
+        he = None
+    else:
+        he = facts.body(RING + "::highest_end_offset")
+    if he is not None:
+        _highest_end_rules(facts, R, he)
+
+    _replay_rules(facts, R)
+
+
+def _edge_sum(a, b2):
+    """one side is (chunks.back() as Some).0.offset + (same).data_len, the other the `offset` argument"""
+    for s_, o_ in ((a, b2), (b2, a)):
+        x = s_
+        if x[0] == "field" and x[2] == "0" and x[1][0] == "bin" and x[1][1] == "AddWithOverflow":
+            x = ("bin", "Add", x[1][2], x[1][3])
+        if x[0] == "bin" and x[1] == "Add" and x[2][0] == "field" and x[3][0] == "field" and {x[2][2], x[3][2]} == {"offset", "data_len"} and x[2][1] == x[3][1]:
+            base = x[2][1]
+            if base[0] == "field" and base[2] == "0" and base[1][0] == "variant" and base[1][2] == "Some" and is_call(base[1][1], "back") and _is_f(base[1][1][2][0], "chunks") \
+                    and o_[0] == "arg" and o_[1] == 2:
+                return True
+    return False
+
+
+def _highest_end_rules(facts, R, he):
     hsym = Sym(he)
     hv = hsym.local(0)
     okh = is_call(hv, "map") and is_call(hv[2][0], "back") and _is_f(hv[2][0][2][0], "chunks")
@@ -158,6 +187,8 @@ def run(facts, R):
             ok = fl == {"offset", "data_len"}
     R.check(ok, "covers-table", hc.path, "end = offset + data_len", "trailing edge computed as %s" % txt, hc.span, txt)
 
+
+def _replay_rules(facts, R):
     # ---------- replay-filter ----------------------------------------------------------------------
     rf = facts.body(RING + "::replay_from")
     rs = Sym(rf)
@@ -341,7 +372,9 @@ def run(facts, R):
             R.check(subs and entry and wp is None, "evict-discipline", b.path, "pop_front paired with bytes_held -= len(front.body)",
                     "an evicted chunk's wire bytes are not subtracted from bytes_held on every path", t.get("span"), "paired", path=wp)
         elif nm == "clear":
-            R.check(b.path == RING + "::clear", "evict-discipline", b.path, "clear-site", "chunks.clear() outside ReplayRing::clear", t.get("span"))
+            # in ReplayRing::clear, or (that helper folded into its only caller) in advance_to_file together with bytes_held = 0
+            inl = b.path == TC + "::advance_to_file" and any(w["body"] is b and w["kind"] == "store" and const_val(Sym(b).rvalue(w["rv"])) == 0 for w in field_writes(facts, RING, "bytes_held"))
+            R.check(b.path == RING + "::clear" or inl, "evict-discipline", b.path, "clear-site", "chunks.clear() outside ReplayRing::clear", t.get("span"))
         elif nm in removers:
             R.bad("evict-discipline", b.path, "chunks." + nm, "ring chunks are modified through `%s`: not oldest-first eviction" % nm, t.get("span"))
         else:
@@ -358,6 +391,12 @@ def run(facts, R):
     af = facts.body(TC + "::advance_to_file")
     asym = Sym(af)
     clears = [term_pt(af, i) for i, t in af.calls() if callee_matches(t["callee"], RING + "::clear") and _is_f(asym.op(t["args"][0]), "replay")]
+    if not clears:
+        # ReplayRing::clear folded in: replay.chunks.clear() and replay.bytes_held = 0, both on every path (the pair is one event)
+        cc = [term_pt(af, i) for i, t in af.calls() if t["callee"]["name"] == "clear" and "VecDeque" in t["callee"]["path"] and "replay.chunks" in render(asym.op(t["args"][0]))]
+        zz = [(w["bb"], w["idx"]) for w in field_writes(facts, RING, "bytes_held") if w["body"] is af and w["kind"] == "store" and const_val(asym.rvalue(w["rv"])) == 0]
+        if cc and zz and must_cross(af, [(0, 0)], return_points(af), zz, after_start=False) is None:
+            clears = cc
     wp = must_cross(af, [(0, 0)], return_points(af), clears, after_start=False)
     R.check(clears and wp is None, "advance-clears", af.path, "replay.clear on all paths", "advance_to_file can return without clearing the replay ring", af.span, path=wp)
     nones = []
@@ -366,9 +405,15 @@ def run(facts, R):
             v = asym.rvalue(w["rv"])
             if v[0] == "agg" and v[2] == "None":
                 nones.append((w["bb"], w["idx"]))
+    # `pending_resume.take()` empties the slot just the same (whatever is done with what was in it)
+    for i, t in af.calls():
+        if t["callee"]["name"] == "take" and "Option" in t["callee"]["path"] and t["args"] and _is_f(asym.op(t["args"][0]), "pending_resume"):
+            nones.append(term_pt(af, i))
     wp = must_cross(af, [(0, 0)], return_points(af), nones, after_start=False)
     R.check(nones and wp is None, "advance-clears", af.path, "pending_resume = None on all paths",
             "advance_to_file can return with a stale pending resume", af.span, path=wp)
+    if RING + "::clear" not in facts.bodies:
+        return      # folded into advance_to_file: judged there (above)
     cl = facts.body(RING + "::clear")
     csym = Sym(cl)
     c1 = [term_pt(cl, i) for i, t in cl.calls() if t["callee"]["path"].endswith("VecDeque::<T, A>::clear") and _is_f(csym.op(t["args"][0]), "chunks")]
